@@ -288,8 +288,11 @@ def run_optimization(case, R):
                 out.append(OP.AtLeastMeasurable(m["name"], tt_, m["threshold"], pop_names=m["pops"]))
         return out
 
+    # the total to be kept is the caller's total times an optional budget factor
+    bf = [1.0, 1.0, 1.5, 0.7][int(u[7] * 1e4) % 4] if use_constraint else 1.0
+
     def make_opt():
-        return OP.Optimization(adjustments=sc.dcp(adjustments), measurables=make_measurables(), constraints=[OP.TotalSpendConstraint()] if use_constraint else None, maxiters=case["maxiters"], maxtime=60)
+        return OP.Optimization(adjustments=sc.dcp(adjustments), measurables=make_measurables(), constraints=[OP.TotalSpendConstraint(budget_factor=bf)] if use_constraint else None, maxiters=case["maxiters"], maxtime=60)
 
     evals = []
     nproc = {"n": 0, "fail_at": None, "exc": None}
@@ -388,7 +391,7 @@ def run_optimization(case, R):
                         R.ok("adjusted-values-within-bounds")
                     # the optimizer starts from the caller's allocation (it lies within these bounds by construction)
                     vs = float(i_start.alloc[pn].get(ay))
-                    if not use_constraint or len(adj_specs) == len(prognames) or True:
+                    if bf == 1.0:
                         if abs(vs - x0v) > 1e-6 * max(1.0, abs(x0v)):
                             R.bad("start=callers-instructions", "C15:optimizer-starts-from-another-allocation[%s]" % ("multi-year" if multi else "single-year"), {"program": pn, "year": ay, "callers": x0v, "optimizer_start": vs})
                         else:
@@ -396,8 +399,8 @@ def run_optimization(case, R):
                 if use_constraint:
                     tot0 = sum(float(pset.get_alloc(ay, instr)[pn][0]) for pn, *_ in adj_specs)  # the caller's total in that year
                     tot1 = sum(float(out_instr.alloc[pn].get(ay)) for pn, *_ in adj_specs)
-                    if abs(tot0 - tot1) > 1e-6 * max(1.0, abs(tot0)):
-                        R.bad("total-spend-kept", "C15:total-spend-changed", {"year": ay, "start": tot0, "end": tot1})
+                    if abs(tot0 * bf - tot1) > 1e-6 * max(1.0, abs(tot0 * bf)):
+                        R.bad("total-spend-kept", "C15:total-spend-changed", {"year": ay, "callers_total": tot0, "budget_factor": bf, "end": tot1})
                     else:
                         R.ok("total-spend-kept")
             # hard targets met at the start are met at the end
